@@ -328,7 +328,7 @@ func (p path) inArray() bool {
 var (
 	internTab = map[string]string{} //nolint:gochecknoglobals
 	reserved  = map[string]bool{    //nolint:gochecknoglobals
-		"@context": true, "proof": true, "created": true, "creator": true, "verificationMethod": true, "proofValue": true,
+		"@context": true, "proof": true, "holder": true, "issuer": true, "issuanceDate": true, "expirationDate": true, "created": true, "creator": true, "verificationMethod": true, "proofValue": true,
 		"proofPurpose": true, "domain": true, "nonce": true, "challenge": true, "capabilityChain": true, "cryptosuite": true,
 		"previousProof": true, "assertionMethod": true, "authentication": true, "ecdsa-2019": true, "DataIntegrityProof": true,
 		"Ed25519Signature2018": true, "JsonWebSignature2020": true, "EcdsaSecp256k1Signature2019": true,
